@@ -146,7 +146,7 @@ def _run_cli(prop, tier, seed, v, wd):
             runs.append({"config": meta, "distinct_states": res["distinct"], "transitions": res["generated"], "wall_s": round(res["wall"], 1)})
             continue
         outj = res["path"] + ".replay.json"
-        p = subprocess.run([binp, "cli", prop, res["path"], outj], stdout=subprocess.PIPE, stderr=subprocess.STDOUT, text=True, timeout=HARNESS_TIMEOUT)
+        p = run_harness([binp, "cli", prop, res["path"], outj], stdout=subprocess.PIPE, stderr=subprocess.STDOUT, text=True, timeout=HARNESS_TIMEOUT)
         if p.returncode != 0:
             raise Broken("cli replay failed: " + p.stdout[-2000:])
         r = json.load(open(outj))
@@ -177,7 +177,7 @@ def fault_grid(tier, seed, v, wd, binp):
     require_clean_mc(res, "fault table")
     outj = os.path.join(wd, "faults.json")
     rounds = {"quick": 6, "thorough": 60}[tier]
-    p = subprocess.run([binp, "cli-faults", res["path"], str(seed), str(rounds), outj], stdout=subprocess.PIPE, stderr=subprocess.PIPE, text=True, timeout=HARNESS_TIMEOUT)
+    p = run_harness([binp, "cli-faults", res["path"], str(seed), str(rounds), outj], stdout=subprocess.PIPE, stderr=subprocess.PIPE, text=True, timeout=HARNESS_TIMEOUT)
     if p.returncode != 0:
         err = p.stderr
         if "panic:" in err or "fatal error:" in err:
@@ -212,14 +212,14 @@ POSTCONDITION Accepted
 CHECK_DEADLOCK FALSE
 """
 
-DRIVE_CASES = {"quick": 120, "thorough": 4000}
+DRIVE_CASES = {"quick": 240, "thorough": 4000}
 
 
 def drive_cases(binp, wd, prop, seed, first, count, tag):
     """run the seeded driver; a crash of the driver inside a command (panic in a goroutine
     started by the command) is attributed to the case in progress"""
     tf = os.path.join(wd, "cli_%s.ndjson" % tag)
-    p = subprocess.run([binp, "drive-cli", prop, str(seed), str(first), str(count), tf],
+    p = run_harness([binp, "drive-cli", prop, str(seed), str(first), str(count), tf],
                        stdout=subprocess.PIPE, stderr=subprocess.PIPE, text=True)
     crash = None
     if p.returncode != 0:
@@ -305,7 +305,7 @@ def replay(wd, prop, rp, path):
         inp = os.path.join(wd, "in.ndjson")
         open(inp, "w").write(json.dumps(rp["tree"]) + "\n")
         outj = os.path.join(wd, "out.json")
-        p = subprocess.run([binp, "cli", prop, inp, outj], stdout=subprocess.PIPE, stderr=subprocess.STDOUT, text=True, timeout=HARNESS_TIMEOUT)
+        p = run_harness([binp, "cli", prop, inp, outj], stdout=subprocess.PIPE, stderr=subprocess.STDOUT, text=True, timeout=HARNESS_TIMEOUT)
         if p.returncode != 0:
             raise Broken(p.stdout)
         r = json.load(open(outj))
